@@ -10,8 +10,8 @@ import (
 	"strings"
 	"testing"
 
-	_ "go.temporal.io/api/workflowservice/v1"
 	"go.temporal.io/api/enums/v1"
+	_ "go.temporal.io/api/workflowservice/v1"
 	_ "go.temporal.io/server/api/adminservice/v1"
 	"google.golang.org/protobuf/proto"
 	"google.golang.org/protobuf/reflect/protoreflect"
@@ -28,7 +28,7 @@ import (
 type vsField struct {
 	Go     string   `json:"go"`
 	Exp    bool     `json:"exp"`
-	Kind   string   `json:"kind"` // str bytes scalar msg listmsg liststr listother mapmsg mapstr mapother oneof internal other
+	Kind   string   `json:"kind"`           // str bytes scalar msg listmsg liststr listother mapmsg mapstr mapother oneof internal other
 	Msg    string   `json:"msg,omitempty"`  // Go type name of the message / element / map value
 	Alts   []string `json:"alts,omitempty"` // oneof: Go wrapper type names
 	Proto  string   `json:"proto,omitempty"`
@@ -46,16 +46,16 @@ type vsType struct {
 }
 
 type vsDump struct {
-	Types         []vsType          `json:"types"`
-	Roots         []string          `json:"roots"`       // Go type names of all request/response types
-	RootMethods   map[string]string `json:"rootMethods"` // Go type -> "svc/Method:req|resp"
-	NsNames       []string          `json:"nsNames"`
-	BlobNames     []string          `json:"blobNames"`
-	SaNames       []string          `json:"saNames"`
-	Skippable     []string          `json:"skippable"`   // Go wrapper type names of skippable event attribute alternatives
-	EventTypes    map[string]string `json:"eventTypes"`  // enum name -> Go wrapper type name of its attributes
-	DenyList      []string          `json:"denyList"`
-	WholeSkipped  []string          `json:"wholeSkipped"` // root types skipped as a whole by isSkippableForNamespaceTranslation
+	Types        []vsType          `json:"types"`
+	Roots        []string          `json:"roots"`       // Go type names of all request/response types
+	RootMethods  map[string]string `json:"rootMethods"` // Go type -> "svc/Method:req|resp"
+	NsNames      []string          `json:"nsNames"`
+	BlobNames    []string          `json:"blobNames"`
+	SaNames      []string          `json:"saNames"`
+	Skippable    []string          `json:"skippable"`  // Go wrapper type names of skippable event attribute alternatives
+	EventTypes   map[string]string `json:"eventTypes"` // enum name -> Go wrapper type name of its attributes
+	DenyList     []string          `json:"denyList"`
+	WholeSkipped []string          `json:"wholeSkipped"` // root types skipped as a whole by isSkippableForNamespaceTranslation
 }
 
 func vsTypeName(t reflect.Type) string {
